@@ -27,4 +27,4 @@ def run(history):
 
 if __name__ == '__main__':
     payload = json.load(open(sys.argv[1]))
-    json.dump([run(h) for h in payload['histories']], open(sys.argv[2], 'w'))
+    json.dump([run(h) for h in payload['histories']], open(sys.argv[2], 'w'), default=lambda o: {'object': type(o).__name__})
